@@ -66,6 +66,17 @@ class Monitor:
         self.eng = yq.engine()
         self.leg = yq.engine(legacy=True)
         self.deleg = yq.engine(allow_delegates=True)
+        # engines that differ in options only: what a text parses to, or which parsing error it gets, is not their
+        # business (limits and conversion options govern evaluation)
+        import yaql as _yaql
+        from yaql.language import factory as _yfactory
+        opts = {'yaql.memoryQuota': 500, 'yaql.limitIterators': 3, 'yaql.convertSetsToLists': True}
+        custom = _yaql.YaqlFactory()
+        custom.insert_operator('+', True, '+++', _yfactory.OperatorType.BINARY_LEFT_ASSOCIATIVE, False)
+        self.flavours = [('options', yq.engine(opts)), ('copy-with-options', self.eng.copy(opts)),
+                         ('legacy-with-options', yq.engine(opts, legacy=True)), ('custom-table-with-options', custom.create(options=opts)),
+                         ('no-keyword-operator', yq.engine(opts, keyword_operator=None))]
+        self.turn = 0
         self.token_calls = 0
         self.patches = hooks.Patches()
         orig = plylex.Lexer.token
@@ -127,6 +138,14 @@ class Monitor:
         rec.count('outcome.' + outcome)
         rec.count('family.' + family)
         rec.case(text, nontrivial=bool(text) and calls > 0)
+        if eng is self.eng and engname == 'default':
+            self.turn += 1
+            every = family.startswith(('long', 'deep'))
+            if every or self.turn % 5 == 0:
+                for fi, (fname, feng) in enumerate(self.flavours):
+                    if every or (self.turn // 5) % len(self.flavours) == fi:
+                        rec.count('flavour.' + fname)
+                        self.check(text, family + '@' + fname, feng, fname)
         return outcome
 
 
@@ -425,7 +444,7 @@ def replay(data, rec):
         text = data['text']
         if isinstance(text, dict) and '$str' in text:
             text = ''.join(chr(c) for c in text['$str'])
-        eng = {'legacy': mon.leg, 'delegates': mon.deleg}.get(data.get('engine'), mon.eng)
+        eng = dict({'legacy': mon.leg, 'delegates': mon.deleg}, **dict(mon.flavours)).get(data.get('engine'), mon.eng)
         out = mon.check(text, 'replay', eng, data.get('engine', 'default'))
         print('text=%r -> outcome=%s' % (text[:300], out))
     finally:
